@@ -599,6 +599,7 @@ func (w *world) step(i int, op Op) error {
 	if faulted {
 		w.tr.FaultsReached += f1 - f0
 	}
+	wasDead := w.dead
 	if fatal {
 		w.dead = true
 		w.tr.Dead = true
@@ -609,7 +610,9 @@ func (w *world) step(i int, op Op) error {
 	if w.dead || faulted {
 		switch op.Kind {
 		case "list", "signers", "sign", "signvia":
-			if w.dead && opErr == nil && !w.locked {
+			// the operation during which the connection died may still succeed when the failing
+			// sub-step is one whose error is ignored by design; later operations cannot
+			if wasDead && opErr == nil && !w.locked {
 				return Errf("%s succeeded although the connection to the underlying agent was destroyed", where)
 			}
 		case "close":
@@ -711,19 +714,25 @@ func (w *world) step(i int, op Op) error {
 		sortPairs(shown)
 		if err := matchView(shown, required, optional, op.Kind == "list"); err != nil {
 			var sb []string
+			var sc []string
 			for _, s := range shown {
 				sb = append(sb, s.blob)
+				sc = append(sc, s.comment)
 			}
-			return Errf("%s (no-upstream=%v): %v\n shown: %s\n underlying before: %s\n in-memory model: %s", where, w.c.NoUpstream, err, describe(sb), describe(blobsOf(ringBefore)), w.memDesc())
+			return Errf("%s (no-upstream=%v): %v\n shown comments: %q\n shown: %s\n underlying before: %s\n in-memory model: %s", where, w.c.NoUpstream, err, sc, describe(sb), describe(blobsOf(ringBefore)), w.memDesc())
 		}
-		// resolve optional entries by observation
-		shownSet := map[string]bool{}
+		// resolve optional entries by observation: an optional in-memory entry was kept iff its blob
+		// is shown more often than the (definite) required entries account for
+		shownCount, reqCount := map[string]int{}, map[string]int{}
 		for _, s := range shown {
-			shownSet[s.blob] = true
+			shownCount[s.blob]++
+		}
+		for _, r := range required {
+			reqCount[r.blob]++
 		}
 		for k, m := range memAfter {
 			if m.maybe {
-				if shownSet[k] {
+				if shownCount[k] > reqCount[k] {
 					m.maybe = false
 				} else {
 					delete(memAfter, k)
